@@ -44,8 +44,11 @@ def proc_cpu_seconds(pid):
         return None
 
 
+_case_budget = [CASE_CPU_BUDGET]
+
+
 def _limits():
-    resource.setrlimit(resource.RLIMIT_CPU, (CASE_CPU_BUDGET, CASE_CPU_BUDGET + 10))
+    resource.setrlimit(resource.RLIMIT_CPU, (_case_budget[0], _case_budget[0] + 10))
     resource.setrlimit(resource.RLIMIT_AS, (ADDRESS_SPACE, ADDRESS_SPACE))
     resource.setrlimit(resource.RLIMIT_CORE, (0, 0))
 
@@ -88,7 +91,7 @@ def replay_once(cmd, out, idx, cwd):
     c = list(cmd) + ["--only", str(idx), "--out", tri]
     t0 = time.time()
     try:
-        p = subprocess.run(c, cwd=cwd, stdout=subprocess.DEVNULL, stderr=subprocess.PIPE, preexec_fn=_limits, timeout=CASE_CPU_BUDGET * 6)
+        p = subprocess.run(c, cwd=cwd, stdout=subprocess.DEVNULL, stderr=subprocess.PIPE, preexec_fn=_limits, timeout=_case_budget[0] * 6)
         rc, err = p.returncode, (p.stderr or b"").decode(errors="replace")
     except subprocess.TimeoutExpired as e:
         # wall-clock watchdog of the replay itself: inconclusive by construction
@@ -136,7 +139,7 @@ def violation(prop, workload, tri, shard, build, seed, tier, nshards):
 MAX_TRIAGED = 3
 
 
-def run_procs(jobs, cwd, prop, workload, tier, seed, timeout=None, log=None):
+def run_procs(jobs, cwd, prop, workload, tier, seed, timeout=None, log=None, budgets=None):
     """Run shard processes in parallel with a no-progress detector; triage shards that do not finish.
 
     jobs: list of {"shard": i, "nshards": n, "build": b, "cmd": [...], "out": path, "env": dict|None}
@@ -146,6 +149,10 @@ def run_procs(jobs, cwd, prop, workload, tier, seed, timeout=None, log=None):
     inconclusive otherwise."""
     import json
     from concurrent.futures import ThreadPoolExecutor
+    # budgets: (CPU seconds inside one case before a running shard is stopped, CPU seconds of an isolated replay); a monitor
+    # whose legitimate cases are long (C16 thorough: one case scans a calendar over 3000 years, about 5 min) passes larger ones
+    stall_cpu, case_cpu = budgets or (STALL_CPU, CASE_CPU_BUDGET)
+    _case_budget[0] = case_cpu
     live = {}
     for j in jobs:
         for f in (j["out"], marker_path(j["out"])):
@@ -203,17 +210,17 @@ def run_procs(jobs, cwd, prop, workload, tier, seed, timeout=None, log=None):
                     continue
                 if idx != st["idx"]:
                     st["idx"], st["cpu_at_change"] = idx, cpu
-                elif idx is not None and cpu - st["cpu_at_change"] > STALL_CPU:
+                elif idx is not None and cpu - st["cpu_at_change"] > stall_cpu:
                     st["p"].kill()
                     st["p"].wait()
                     del live[i]
-                    ended(st, f"stopped after {STALL_CPU} CPU seconds inside one case", None)
+                    ended(st, f"stopped after {stall_cpu} CPU seconds inside one case", None)
     if not dead:
         return reports, problems
     chosen, rest = dead[:MAX_TRIAGED], dead[MAX_TRIAGED:]
     if log:
         log(f"{len(dead)} shard(s) of the {workload} ended abnormally ({'; '.join(sorted({h for _, h, _ in dead}))}); "
-            f"replaying the case {len(chosen)} of them were in, alone, twice, with a CPU budget of {CASE_CPU_BUDGET} s")
+            f"replaying the case {len(chosen)} of them were in, alone, twice, with a CPU budget of {case_cpu} s")
     with ThreadPoolExecutor(max_workers=MAX_TRIAGED) as ex:
         tris = list(ex.map(lambda d: triage(d[0]["cmd"], d[0]["out"], cwd, d[1]), chosen))
     confirmed = 0
